@@ -22,6 +22,7 @@ def strategy():
         max_steps=22,
         cond_rate=0,
         focus=True,
+        locked_rate=7,
     )
 
 
